@@ -6,7 +6,7 @@
    on_dial_failure operations with keys of length L; K is the bucket size (20 in litep2p). *)
 From Coq Require Import List Bool Arith NArith Permutation Sorted.
 From V.gen Require Consts.
-From V.C14 Require Import Model Proofs U256.
+From V.C14 Require Import Model Proofs U256 GhostProofs.
 Import ListNotations.
 
 (* Placement: every peer stored in bucket i (everything except the address-less dummy that
@@ -341,6 +341,132 @@ Proof.
   exact (closest_facts local K _ tgt k HL (kreach_inv local K h Hw) Ht Hc).
 Qed.
 Print Assumptions C14_reply_exactly_k_closest.
+
+(* ---------------------------------------------------------------- ground truth of connectedness
+
+   `ghost local K h` (Model.v) is the set of peers that ARE connected after the history h, judged
+   from the history alone: some operation said so while — or by which — the table held the peer
+   (on_connection_established on a stored peer, add_known_peer(.., Connected) that left it stored,
+   insert(.., Connected) through a Vacant slot) and no disconnect for that peer followed.  What
+   the table's own `connection` flag says plays no role in the definition. *)
+
+(* a connected peer is stored, in the bucket of its distance, and its entry says Connected (so
+   KBucket::entry never offers its slot) — for every history, any keys, any K *)
+Theorem C14_gt_connected_stored :
+  forall local K h k, In k (ghost local K h) ->
+  exists i n, ilog2 (kxor local k) = Some i /\ In n (nth i (reach local K h) []) /\
+              n_key n = k /\ n_conn n = Connected.
+Proof. exact ghost_stored. Qed.
+Print Assumptions C14_gt_connected_stored.
+
+(* C14_connected_kept restated against ground truth: once connected, the peer is connected and
+   stored (same bucket, same key) after every continuation of the history that does not
+   disconnect it — dial failures, re-mentions with any connection type, inserts, lookups and any
+   number of newcomers to its full bucket included *)
+Theorem C14_gt_connected_kept :
+  forall local K h1 h2 k, In k (ghost local K h1) -> ~ In (ODisconnected k) h2 ->
+  In k (ghost local K (h1 ++ h2)) /\
+  exists i n, ilog2 (kxor local k) = Some i /\ In n (nth i (reach local K (h1 ++ h2)) []) /\
+              n_key n = k /\ n_conn n = Connected.
+Proof.
+  intros local K h1 h2 k H1 H2. pose proof (ghost_kept local K h1 h2 k H1 H2) as H.
+  split; [exact H|exact (ghost_stored local K _ k H)].
+Qed.
+Print Assumptions C14_gt_connected_kept.
+
+(* membership is exactly: the last connection-related operation for the peer was a Connected
+   claim that left it stored, with no disconnect after it *)
+Theorem C14_gt_last_claim :
+  forall local K h k,
+  In k (ghost local K h) <->
+  exists h1 o h2, h = h1 ++ o :: h2 /\ op_key o = k /\
+    claims_connected o (last_code local K h1 o) = true /\
+    stored_in local (reach local K (h1 ++ [o])) k = true /\
+    ~ In (ODisconnected k) h2.
+Proof. exact ghost_iff. Qed.
+Print Assumptions C14_gt_last_claim.
+
+Theorem C14_gt_disconnect_revokes :
+  forall local K h k, ~ In k (ghost local K (h ++ [ODisconnected k])).
+Proof. exact ghost_disconnect. Qed.
+Print Assumptions C14_gt_disconnect_revokes.
+
+(* closest(): a connected peer with a known address is returned, unless k stored peers with
+   addresses strictly closer to the target fill the result *)
+Theorem C14_gt_connected_returned :
+  forall local K h tgt kk k,
+  1 <= length local -> wf_ops local h -> length tgt = length local ->
+  outside_class local (reach local K h) tgt ->
+  In k (ghost local K h) ->
+  exists n, In n (concat (reach local K h)) /\ n_key n = k /\ n_conn n = Connected /\
+    (n_addr n = true ->
+     In n (closest local (reach local K h) tgt kk) \/
+     (length (closest local (reach local K h) tgt kk) = kk /\
+      forall a, In a (closest local (reach local K h) tgt kk) -> dlt tgt a n)).
+Proof.
+  intros local K h tgt kk k HL Hw Ht Hc Hk.
+  destruct (ghost_stored local K h k Hk) as [i [n [_ [Hin [E1 E2]]]]].
+  exists n. split; [eapply in_nth_concat; exact Hin|]. split; [exact E1|]. split; [exact E2|].
+  intro Ha. eapply closest_returns; eauto using reach_inv, in_nth_concat.
+Qed.
+Print Assumptions C14_gt_connected_returned.
+
+(* the rule of add_known_peer matters (F-C14c): with the first repair alone (only NotConnected
+   spared a Connected entry) a connected peer that is re-mentioned as CannotConnect lost its
+   place to the next newcomer of its full bucket *)
+Theorem C14_remention_displaces_refuted_before_fix :
+  exists local K h k,
+    wf_ops local h /\ In k (ghost local K h) /\
+    ~ exists i n,
+        In n (nth i (fold_left (fun t o => fst (step_gen add_conn_b local K t o)) h
+                               (empty_table (length local))) []) /\ n_key n = k.
+Proof.
+  exists [false; false], 1,
+         [OAdd [true; false] true NotConnected; OConnected [true; false] false;
+          OAdd [true; false] true CannotConnect; OAdd [true; true] true NotConnected],
+         [true; false].
+  split; [repeat constructor|]. split; [vm_compute; auto|].
+  intros [i [n [Hin Hk]]]. vm_compute in Hin.
+  destruct i as [|[|[|i]]]; simpl in Hin; try (destruct Hin; fail).
+  destruct Hin as [<-|[]]. discriminate.
+Qed.
+Print Assumptions C14_remention_displaces_refuted_before_fix.
+
+(* the same against the Kademlia glue: kghost = ground truth along a glue history (connection
+   established while the peer is stored, or an update while a PeerContext exists, until
+   disconnect_peer) *)
+Theorem C14_kad_gt_connected_stored :
+  forall local K h k, In k (kghost local K h) ->
+  exists i n, ilog2 (kxor local k) = Some i /\ In n (nth i (k_table (kreach local K h)) []) /\
+              n_key n = k /\ n_conn n = Connected.
+Proof. exact kghost_stored. Qed.
+Print Assumptions C14_kad_gt_connected_stored.
+
+Theorem C14_kad_gt_connected_kept :
+  forall local K h1 h2 k, In k (kghost local K h1) -> ~ In (KDisconnect k) h2 ->
+  In k (kghost local K (h1 ++ h2)) /\
+  exists i n, ilog2 (kxor local k) = Some i /\ In n (nth i (k_table (kreach local K (h1 ++ h2))) []) /\
+              n_key n = k /\ n_conn n = Connected.
+Proof.
+  intros local K h1 h2 k H1 H2. pose proof (kghost_kept local K h1 h2 k H1 H2) as H.
+  split; [exact H|exact (kghost_stored local K _ k H)].
+Qed.
+Print Assumptions C14_kad_gt_connected_kept.
+
+Theorem C14_kad_gt_established :
+  forall local K h p d pe,
+  stored_in local (k_table (kreach local K (h ++ [KEstablished p d pe]))) p = true ->
+  In p (kghost local K (h ++ [KEstablished p d pe])).
+Proof. exact kghost_established. Qed.
+Print Assumptions C14_kad_gt_established.
+
+(* the glue history is the table history kflat: everything proved about `reach` holds for the
+   tables of the event loop *)
+Theorem C14_kad_is_table_history :
+  forall local K h,
+  k_table (kreach local K h) = reach local K (kflat local K (kad_empty (length local)) h).
+Proof. intros. unfold kreach, reach. apply krun_flat. Qed.
+Print Assumptions C14_kad_is_table_history.
 
 (* the handler does not remove the requester from the reply: a requester that is stored with an
    address and is among the k closest to the target is sent back to itself *)
